@@ -363,6 +363,12 @@ impl<W: Write + io::Seek> ZipWriter<W> {
     where
         S: Into<String>,
     {
+        let name = name.into();
+        if name.len() > spec::ZIP64_ENTRY_THR {
+            return Err(ZipError::InvalidArchive(
+                "File name does not fit its 16-bit length field",
+            ));
+        }
         self.finish_file()?;
 
         let raw_values = raw_values.unwrap_or(ZipRawValues {
@@ -387,7 +393,7 @@ impl<W: Write + io::Seek> ZipWriter<W> {
                 crc32: raw_values.crc32,
                 compressed_size: raw_values.compressed_size,
                 uncompressed_size: raw_values.uncompressed_size,
-                file_name: name.into(),
+                file_name: name,
                 file_name_raw: Vec::new(), // Never used for saving
                 extra_field: Vec::new(),
                 file_comment: String::new(),
@@ -825,6 +831,11 @@ impl<W: Write + io::Seek> ZipWriter<W> {
     }
 
     fn finalize(&mut self) -> ZipResult<()> {
+        if self.comment.len() > spec::ZIP64_ENTRY_THR {
+            return Err(ZipError::InvalidArchive(
+                "Archive comment does not fit its 16-bit length field",
+            ));
+        }
         self.finish_file()?;
 
         {
@@ -1269,7 +1280,9 @@ fn write_central_directory_header<T: Write>(writer: &mut T, file: &ZipFileData) 
 fn validate_extra_data(file: &ZipFileData) -> ZipResult<()> {
     let mut data = file.extra_field.as_slice();
 
-    if data.len() > spec::ZIP64_ENTRY_THR {
+    // The local header's extra field also holds the 20-byte ZIP64 block of a large file.
+    let reserved = if file.large_file { 20 } else { 0 };
+    if data.len() > spec::ZIP64_ENTRY_THR - reserved {
         return Err(ZipError::Io(io::Error::new(
             io::ErrorKind::InvalidData,
             "Extra data exceeds extra field",
